@@ -49,6 +49,7 @@ type Choice struct {
 	Kind    ChoiceKind
 	Preempt bool   // ChSched only: alt 0 is the still-enabled running thread, so alt>0 is a preemption
 	Tag     string // human readable
+	Mem     bool   // ChSched only: the running thread stands at a plain-memory access point (MemPoints)
 }
 
 // Thread is one controlled goroutine.
@@ -74,7 +75,8 @@ type Thread struct {
 	last        uint64
 	nev         int
 	// Local is scratch space for fakes that need per-thread data.
-	Local map[string]interface{}
+	Local    map[string]interface{}
+	memPoint bool
 }
 
 func (t *Thread) String() string { return t.Name }
@@ -125,6 +127,7 @@ type Result struct {
 	Panics   []string
 	Blocked  []Blocked
 	Races    []Race
+	MemRaces []MemRace
 	Now      time.Duration
 	Diverged string // non-empty: replay prefix did not fit (internal nondeterminism)
 	TraceLog []string
@@ -154,6 +157,10 @@ type Sched struct {
 	Visited func(nChoices int, key uint64) bool
 	// Trace enables a human readable step log in Result.TraceLog.
 	Trace bool
+	// MemPoints: source sites whose plain-memory accesses are scheduling points.
+	MemPoints map[string]bool
+	mem       map[uintptr]*memInfo
+	memKeep   []any
 	// stop conditions
 	exit bool
 }
@@ -484,6 +491,9 @@ func (s *Sched) Run() *Result {
 				tag = strings.Join(names, " | ")
 			}
 			t = en[s.choose(len(en), ChSched, curEnabled, tag)]
+			if curEnabled && s.cur.memPoint {
+				s.res.Choices[len(s.res.Choices)-1].Mem = true
+			}
 		}
 		s.cur = t
 		s.res.Steps++
